@@ -13,6 +13,7 @@ import (
 	"sort"
 	"strconv"
 	"strings"
+	"syscall"
 	"time"
 
 	"github.com/arm-doe/sts"
@@ -23,8 +24,9 @@ import (
 )
 
 // component "release": the sender's release decisions — client.Broker.recover / scan /
-// startValidate / finish / startTrack run on a real cache.JSON (temp file) and a real
-// store.Local (temp dir) with scripted Recoverer / Validator / Logger. Properties C02, C07.
+// startValidate / finish / startRetry / startTrack run on a real cache.JSON (temp file) and a real
+// store.Local (temp dir) with scripted Recoverer / Validator / Logger (and scripted one-shot faults of
+// the store's opener for the retry worker). Properties C02, C07.
 type releaseComp struct{}
 
 func init() { register(releaseComp{}) }
@@ -32,8 +34,8 @@ func init() { register(releaseComp{}) }
 func (releaseComp) Name() string { return "release" }
 func (releaseComp) Rule() string {
 	return "case = declared cache / files / partials / poll script / tags followed by actions " +
-		"(recover, scan, validate, finish, restart, track) on one sender; non-trivial = at least one action " +
-		"made a release decision (done-marking, deletion, retry, queue push, cache removal or hand-over); " +
+		"(recover, scan, validate, finish, retry, restart, track) on one sender; non-trivial = at least one action " +
+		"made a release decision (done-marking, deletion, retry, queue push, cache re-add, cache removal or hand-over); " +
 		"distinct = by the full op sequence"
 }
 
@@ -69,6 +71,12 @@ type relExec struct {
 	pollErrs int
 	recErrs  int
 	logged   map[string]bool
+
+	// scripted faults of the store's opener, by name: "gone" (the file vanishes between Sync and open),
+	// "openerr" (open fails with an error other than not-exist), "readerr" (reading the opened file
+	// fails). One-shot: used by the first open of that name in the next `retry`, dropped when it ends.
+	faults    map[string]string
+	faultUsed map[string]string
 
 	hashTok map[string]string // real md5 -> token
 
@@ -116,7 +124,7 @@ func (releaseComp) NewExec() Exec {
 		pollMax: 2, attempts: 2,
 		declSeen: map[string]bool{}, answers: map[string][]string{}, logged: map[string]bool{},
 		hashTok: map[string]string{}, confirmed: map[string]relVersion{}, vanished: map[string]bool{},
-		rcvHas: map[string]string{},
+		rcvHas: map[string]string{}, faults: map[string]string{}, faultUsed: map[string]string{},
 	}
 	os.MkdirAll(e.root, 0o755)
 	os.MkdirAll(e.cacheDir, 0o755)
@@ -350,6 +358,40 @@ func (s *relStore) Scan(allow func(sts.File) bool) ([]sts.File, time.Time, error
 	files, t, err := s.Local.Scan(allow)
 	sort.Slice(files, func(i, j int) bool { return files[i].GetName() < files[j].GetName() })
 	return files, t, err
+}
+
+// GetOpener: the real store.Local.Open, except that inside a `retry` action the first open of a name
+// with a scripted fault meets that fault: the file is removed just before the (real) open, or the
+// open fails with EMFILE, or the handle it returns fails every Read with EIO.
+func (s *relStore) GetOpener() sts.Open {
+	return func(f sts.File) (sts.Readable, error) {
+		e := s.e
+		if e.action == "retry" {
+			if k, ok := e.faults[f.GetName()]; ok {
+				delete(e.faults, f.GetName())
+				e.faultUsed[f.GetName()] = k
+				switch k {
+				case "gone":
+					os.Remove(f.GetPath())
+				case "openerr":
+					return nil, &os.PathError{Op: "open", Path: f.GetPath(), Err: syscall.EMFILE}
+				case "readerr":
+					fh, err := s.Local.Open(f)
+					if err != nil {
+						return fh, err
+					}
+					return &relBadReader{fh}, nil
+				}
+			}
+		}
+		return s.Local.Open(f)
+	}
+}
+
+type relBadReader struct{ sts.Readable }
+
+func (b *relBadReader) Read([]byte) (int, error) {
+	return 0, &os.PathError{Op: "read", Path: "scripted", Err: syscall.EIO}
 }
 
 func (s *relStore) Remove(f sts.File) error {
@@ -1185,13 +1227,14 @@ type relPollable struct {
 	name string
 	hash string
 	size int64
+	prev string
 }
 
 func (p relPollable) GetName() string       { return p.name }
 func (p relPollable) GetSize() int64        { return p.size }
 func (p relPollable) GetHash() string       { return p.hash }
 func (p relPollable) TimeMs() int64         { return 0 }
-func (p relPollable) GetPrev() string       { return "" }
+func (p relPollable) GetPrev() string       { return p.prev }
 func (p relPollable) GetStarted() time.Time { return time.Time{} }
 
 func (e *relExec) drainRetry(b *client.Broker) []string {
@@ -1323,6 +1366,128 @@ func (e *relExec) doValidate(arg string) string {
 	e.checkPersistOrder()
 	return fmt.Sprintf("polls=%s perrs=%d done=%s del=%s retry=%s left=- | %s",
 		strings.Join(pt, ","), perrs, collect("cdone:"), collect("del:"), rts, e.stateView())
+}
+
+// doRetry: the files (NAME:PREV, PREV `-` = none) are put on the retry channel as finish() does after a
+// negative outcome of the poll, and the real startRetry loop runs until the channel is empty.
+func (e *relExec) doRetry(arg string) string {
+	type rf struct{ name, prev string }
+	var files []rf
+	for _, s := range strings.Split(arg, ",") {
+		p := strings.Split(s, ":")
+		if len(p) != 2 || !relValidName(p[0]) || (p[1] != "-" && !relValidName(p[1])) {
+			return "bad-op"
+		}
+		files = append(files, rf{p[0], unesc(p[1])})
+	}
+	e.beginAction("retry")
+	e.faultUsed = map[string]string{}
+	before := e.snapCache()
+	b := e.newBroker(len(files) + 8)
+	var in []sts.Polled
+	for _, f := range files {
+		in = append(in, &relPolled{Pollable: relPollable{name: f.name, prev: f.prev}, code: sts.ConfirmFailed})
+	}
+	var out [][]sts.Hashed
+	hung := e.guarded(b, 3*time.Second, func() { out = b.VerifReleaseRetry(in) })
+	e.faults = map[string]string{}
+	if hung {
+		e.failf("loop-hang: the retry loop did not come back although its input channel was closed")
+		return "hang"
+	}
+	after := e.snapCache()
+	disk := e.snapStore()
+	queued := map[string]bool{}
+	var ptoks []string
+	for _, l := range out {
+		for _, h := range l {
+			kind, prev, left, _ := client.VerifReleaseDescribe(h)
+			n := h.GetName()
+			e.decided = true
+			queued[n] = true
+			var ls []string
+			for _, r := range left {
+				ls = append(ls, fmt.Sprintf("%d:%d", r.Beg, r.End))
+			}
+			lt := "-"
+			if len(ls) > 0 {
+				lt = strings.Join(ls, ",")
+			}
+			switch kind {
+			case "resume":
+				ptoks = append(ptoks, fmt.Sprintf("R:%s:%s:%s", esc(n), esc(prev), lt))
+			case "plain":
+				ptoks = append(ptoks, "W:"+esc(n))
+			default:
+				ptoks = append(ptoks, fmt.Sprintf("%s:%s:%s:%s", kind, esc(n), esc(prev), lt))
+			}
+			// oracle: a file that failed at the receiver is sent again WHOLE, announcing the predecessor
+			// it announced before
+			whole := kind == "plain" || (kind == "resume" && len(left) == 1 && left[0].Beg == 0 && left[0].End == h.GetSize())
+			if !whole {
+				e.failf("retry-not-whole: %s is queued again after a negative outcome with the ranges %s, not the whole file (size %d)", n, lt, h.GetSize())
+			}
+			prevOK := false
+			for _, f := range files {
+				if f.name == n && (kind != "plain" && f.prev == prev || kind == "plain" && f.prev == "") {
+					prevOK = true
+				}
+			}
+			if !prevOK {
+				e.failf("retry-prev-lost: %s is queued again with predecessor %q, which is not the one it was polled with", n, prev)
+			}
+			// oracle: the hash it is queued with is the hash of what the file holds now
+			if d, ok := disk[n]; ok && e.faultUsed[n] == "" && !d.frac && d.size == h.GetSize() && d.time == e.ticksInt(h.GetTime()) {
+				if fh, err := os.Open(filepath.Join(e.root, n)); err == nil {
+					m := md5.New()
+					io.Copy(m, fh)
+					fh.Close()
+					if now := fmt.Sprintf("%x", m.Sum(nil)); now != h.GetHash() {
+						e.failf("retry-stale-hash: %s is queued again with hash %s, the file's content hashes to %s", n, e.hashOut(h.GetHash()), e.hashOut(now))
+					}
+				}
+			}
+		}
+	}
+	// oracle retry-dropped: a file taken off the retry channel whose cache entry was not done, that still
+	// exists unchanged and was not marked done (done-unconfirmed judges that), is queued again or stays in the
+	// cache, not done (recover() finds it after a restart)
+	seen := map[string]bool{}
+	for _, f := range files {
+		n := f.name
+		s, cached := before[n]
+		if seen[n] || !cached || s.done {
+			continue
+		}
+		seen[n] = true
+		d, onDisk := disk[n]
+		if !onDisk || d.frac || d.size != s.size || d.time != s.time {
+			continue
+		}
+		marked := false
+		for _, t := range e.trace {
+			if strings.HasPrefix(t, "cdone:"+esc(n)+":") {
+				marked = true
+			}
+		}
+		if marked || queued[n] {
+			continue
+		}
+		a, still := after[n]
+		switch {
+		case !still:
+			e.failf("retry-dropped: %s (refused by the receiver, unchanged on disk) was neither queued again nor kept in the cache", n)
+		case a.done:
+			e.failf("retry-dropped: %s (refused by the receiver, unchanged on disk) was not queued again and its cache entry says done", n)
+		case a.size != s.size || a.time != s.time:
+			e.failf("retry-dropped: %s was not queued again and its cache entry no longer describes the file on disk", n)
+		}
+	}
+	pt := "-"
+	if len(ptoks) > 0 {
+		pt = strings.Join(ptoks, " ")
+	}
+	return e.traceView() + " | push=" + pt + " | " + e.stateView()
 }
 
 // ---- tracker
@@ -1586,6 +1751,15 @@ func (e *relExec) Do(op []string) string {
 		return e.doFinish(op[1], op[2])
 	case len(op) == 2 && op[0] == "validate":
 		return e.doValidate(op[1])
+	case len(op) == 4 && op[0] == "fault":
+		kind := map[string]string{"open gone": "gone", "open eio": "openerr", "read eio": "readerr"}[op[1]+" "+op[3]]
+		if kind == "" || !relValidName(op[2]) {
+			return "bad-op"
+		}
+		e.faults[op[2]] = kind
+		return "ok"
+	case len(op) == 2 && op[0] == "retry":
+		return e.doRetry(op[1])
 	case len(op) == 2 && op[0] == "track":
 		return e.doTrack(op[1])
 	}
@@ -1625,9 +1799,33 @@ func fileExists(p string) bool { _, err := os.Stat(p); return err == nil }
 
 func (releaseComp) AnswerClass(op []string, ans string) string {
 	switch op[0] {
-	case "recover", "scan", "finish", "validate", "track":
+	case "fault":
+		if ans == "ok" {
+			return "fault:" + op[1] + "-" + op[3]
+		}
+		return "fault:" + ans
+	case "recover", "scan", "finish", "validate", "track", "retry":
 		if ans == "bad-op" {
 			return op[0] + ":bad-op"
+		}
+		if op[0] == "retry" {
+			kinds := map[string]bool{}
+			parts := strings.Split(ans, " | ")
+			for _, t := range strings.Fields(parts[0]) {
+				if i := strings.Index(t, ":"); i > 0 {
+					kinds[t[:i]] = true
+				}
+			}
+			if len(parts) > 1 && parts[1] != "push=-" {
+				kinds["push"] = true
+			}
+			if len(parts) > 2 && strings.Contains(parts[2], "/-/") {
+				kinds["hashless"] = true
+			}
+			if len(kinds) == 0 {
+				kinds["ignored"] = true
+			}
+			return "retry:" + strings.Join(sortedKeys(kinds), "+")
 		}
 		kinds := map[string]bool{}
 		head := strings.SplitN(ans, " | mem=", 2)[0]
